@@ -8,7 +8,9 @@ import decoders as D
 import values as V
 
 PID = "C03"
-THEOREMS = ["json_text_roundtrip", "to_json_lossless", "json_output_decodes", "to_json_error_iff", "int_text_value"]
+THEOREMS = ["json_text_roundtrip", "to_json_lossless", "json_output_decodes", "to_json_error_iff", "int_text_value",
+            "toml_string_roundtrip", "toml_key_roundtrip", "toml_int_roundtrip", "toml_float_text", "to_toml_error_iff", "toml_output_no_panic",
+            "toml_doc_roundtrip", "toml_good_total", "toml_mixed_array_refuted", "toml_nested_table_array_alters"]
 CONVS = ["json", "yaml", "toml", "yamlmulti"]
 
 
@@ -194,6 +196,39 @@ def run(tier, seed):
                 else:
                     disagreements.append({"converter": "json", "value": V.to_wire(v), "impl": r, "model": m})
             cov["json_model_unsupported"] = unsup
+        if conv == "toml" and okm:
+            # the TOML model (converter + toml-rs pretty serializer re-modelled): same bytes, same success/failure; its reader's verdict
+            # on its own output must agree with the independent python decoder's verdict on the real output
+            sx = [V.to_sexp(v) for v in vals]
+            unsup_hex = C.hexs("UNSUPPORTED")
+            keep = [i for i, x in enumerate(sx) if unsup_hex not in x]
+            mo = dict(zip(keep, C.model("toml_out", [sx[i] for i in keep])))
+            mr = dict(zip(keep, C.model("toml_rt", [sx[i] for i in keep])))
+            tstats = {"compared": len(keep), "unsupported_float_text": len(vals) - len(keep), "ok": 0, "err": 0, "model_rt_ok": 0, "model_rt_not": 0}
+            for i in keep:
+                v, r, m = vals[i], res[i], mo[i]
+                if m.startswith("ok "):
+                    tstats["ok"] += 1
+                    want = C.unhex(m[3:])
+                    got = r.get("ok", {}).get("utf8")
+                    if got is None or got.encode("utf-8") != want:
+                        disagreements.append({"converter": "toml", "value": V.to_wire(v), "impl": r, "model": want.decode("utf-8", "replace")})
+                        continue
+                    # the model's own reader against the property's oracle (python tomllib on the real bytes)
+                    rt_ok = mr[i] == "rt="
+                    tstats["model_rt_ok" if rt_ok else "model_rt_not"] += 1
+                    oracle_ok = check_one(conv, v, r) is None
+                    if rt_ok != oracle_ok:
+                        disagreements.append({"converter": "toml", "value": V.to_wire(v), "impl": r, "model_reader": mr[i],
+                                              "independent_decoder_agrees_with_value": oracle_ok,
+                                              "why": "the model's TOML reader and the independent decoder disagree on whether the output holds the value"})
+                elif m.startswith("err "):
+                    tstats["err"] += 1
+                    if "err" not in r:
+                        disagreements.append({"converter": "toml", "value": V.to_wire(v), "impl": r, "model": m})
+                else:
+                    disagreements.append({"converter": "toml", "value": V.to_wire(v), "impl": r, "model": m})
+            cov["toml_model"] = tstats
     cov["evaluations"] = n * len(CONVS)
     cov["distinct_nontrivial"] = len(set(json.dumps(V.to_wire(v), sort_keys=True) for v in vals if V.size(v) > 1))
     cov["rule"] = ("seeded value trees to depth 5 (NULL, bools, ints incl. +-2^53+-1 and i64 extremes, finite and non-finite floats, "
@@ -208,7 +243,9 @@ def run(tier, seed):
     ck.assumptions = [
         "JSON is proved end to end on the model (printer+parser+mapping); the model's bytes are compared with the implementation's",
         "finite floats enter the model as decimal text computed independently by python (positional range only; others are compared after decoding)",
-        "YAML/TOML: serde_yaml and toml emitters are third-party; their output is decoded by PyYAML (YAML 1.2 core resolvers) and tomllib",
+        "TOML is proved end to end on a model that re-implements the third-party serializer (toml-rs 0.5.11 value.rs/ser.rs as reached by to_string_pretty) byte for byte; "
+        "the tie is the byte comparison on every value; the model's TOML reader is cross-checked against tomllib",
+        "YAML: the serde_yaml emitter is third-party and not modelled; its output is decoded by PyYAML (YAML 1.2 core resolvers)",
     ]
     if real:
         # shrink the first failure to its smallest failing sub-value
